@@ -229,6 +229,10 @@ fn get_dir_name() -> String {
 
 #[cfg(not(test))]
 fn get_dir_name() -> String {
+    #[cfg(nundb_verif)]
+    if let Some(dir) = crate::verif_hooks::data_dir() {
+        return dir;
+    }
     NUN_DBS_DIR.to_string()
 }
 
